@@ -125,7 +125,14 @@ let heuristic_of_words (h : string) (rest : string list) : heuristic =
 type adf_state = { mutable st : store; mutable ac : n list; names : string list; c : cfg }
 
 let run_adf id (lines : string list) =
-  let text = ref "" and sort = ref "none" and cfgs = ref "a1v1" in
+  let text = ref "" and sort = ref "none" and cfgs = ref "a1v1" and backend = ref "native" in
+  let acdumps = ref [] and gdumps = ref [] in
+  let parse_dump (d : string) : bio_ac =
+    match d with
+    | "T" -> BTrue | "F" -> BFalse
+    | _ -> BDump (List.map (fun t -> match String.split_on_char ':' t with
+                    | [v; lo; hi] -> ((n_of_string v, nat_of_int (int_of_string lo)), nat_of_int (int_of_string hi))
+                    | _ -> failwith "bad dump") (String.split_on_char ';' d)) in
   let queries = ref [] in
   List.iter (fun line ->
     match words line with
@@ -133,6 +140,9 @@ let run_adf id (lines : string list) =
     | ["text"] -> text := ""
     | ["sort"; s] -> sort := s
     | ["cfg"; s] -> cfgs := s
+    | ["backend"; b] -> backend := b
+    | ["acdump"; _; d] -> acdumps := parse_dump d :: !acdumps
+    | ["gdump"; _; d] -> gdumps := parse_dump d :: !gdumps
     | "draws" :: l -> draws := List.map n_of_string l
     | ["seed"; _] -> ()
 
@@ -150,13 +160,50 @@ let run_adf id (lines : string list) =
     | Some fs ->
       (try
         let n = List.length ps.names in
-        let (st0, ac0) = unopt (from_parser c (nat_of_int n) fs) in
+        let acd = List.rev !acdumps and gd = List.rev !gdumps in
+        let is_bio = (!backend = "bio" || !backend = "biorew") in
+        let (st0, ac0) =
+          match !backend with
+          | "hyb0" -> from_biodivine_vector c acd
+          | "hyb1" | "hybrew" -> from_biodivine_vector c gd
+          | _ -> unopt (from_parser c (nat_of_int n) fs) in
         let a = { st = st0; ac = ac0; names = List.map string_of_str ps.names; c } in
-        emit id "ac" (handles_string a.ac);
+        if not is_bio then emit id "ac" (handles_string a.ac);
+        (* translation validation of the bridge (C09): compile natively, replay the implementation's dumps
+           into the same store, compare handles (equal handle iff equal function, canonicity theorem) *)
+        let validate () =
+          let (s0, nat_ac) = unopt (from_parser c (nat_of_int n) fs) in
+          let bad = ref [] in
+          List.iteri (fun i d -> if not (wf_dump d) then bad := ("illformed-dump " ^ string_of_int i) :: !bad) (acd @ gd);
+          if !bad = [] && acd <> [] then begin
+            let (s1, br) = bridge_all c s0 acd in
+            List.iteri (fun i (x, y) -> if x <> y then bad := ("ac " ^ string_of_int i ^ " denotes another function than the parsed condition") :: !bad)
+              (List.combine nat_ac br);
+            if gd <> [] then begin
+              let (s2, g) = unopt (grounded c s1 nat_ac) in
+              let (_, bg) = bridge_all c s2 gd in
+              List.iteri (fun i (x, y) -> if x <> y then bad := ("pre-grounded ac " ^ string_of_int i ^ " is not the condition with the grounded values substituted") :: !bad)
+                (List.combine g bg)
+            end
+          end;
+          if !bad = [] then "OK " ^ string_of_int (List.length acd) ^ "+" ^ string_of_int (List.length gd) else "BAD " ^ String.concat "; " (List.rev !bad) in
         let k = ref 0 in
         List.iter (fun q ->
           let qid = "q" ^ string_of_int !k in incr k;
           match q with
+          | ["validate"] -> emit id qid ("validate " ^ validate ())
+          | ["grounded"] when is_bio -> let (s, g) = unopt (bio_grounded c a.st a.ac) in a.st <- s; emit id qid ("grounded " ^ interp_string g ^ " " ^ handles_string g)
+          | ["complete"] when is_bio -> let (s, l) = unopt (bio_complete c a.st a.ac) in a.st <- s; emit id qid ("complete " ^ interps_string l)
+          | ["stable"] when is_bio -> let (s, l) = unopt (bio_stable c a.st a.ac) in a.st <- s; emit id qid ("stable " ^ interps_string l)
+          | ["stablerew"] when is_bio ->
+            let (s, l) = unopt (bio_stable_rew c a.st a.ac) in a.st <- s;
+            emit id qid ("stablerew " ^ String.concat " " (List.sort compare (List.map interp_string l)))
+          | ["stablerew"] ->
+            (* candidates come from the biodivine side (the conditions as parsed), the filter runs on this store *)
+            let (s0, nat_ac) = unopt (from_parser c (nat_of_int n) fs) in
+            let (_, cands) = unopt (stable_candidates c s0 nat_ac) in
+            let (s, l) = unopt (stable_from_candidates c a.st a.ac cands) in a.st <- s;
+            emit id qid ("stablerew " ^ String.concat " " (List.sort compare (List.map interp_string l)))
           | ["grounded"] -> let (s, g) = unopt (grounded c a.st a.ac) in a.st <- s; emit id qid ("grounded " ^ interp_string g ^ " " ^ handles_string g)
           | ["complete"] -> let (s, l) = unopt (complete c a.st a.ac) in a.st <- s; emit id qid ("complete " ^ interps_string l)
           | ["stable"] -> let (s, l) = unopt (stable c a.st a.ac) in a.st <- s; emit id qid ("stable " ^ interps_string l)
@@ -288,7 +335,8 @@ let () =
               | "NG" -> run_ng id lines
               | "LEAF" -> run_leaf id lines
               | _ -> failwith ("unknown case kind " ^ kind))
-           with Stack_overflow -> emit id "STACKOVERFLOW" "");
+           with Stack_overflow -> emit id "STACKOVERFLOW" ""
+              | e -> emit id "EXN" (Printexc.to_string e));
            cur := None
          | None -> ())
       | _ -> buf := line :: !buf
